@@ -39,6 +39,11 @@ def cases(tier):
     for so in sorts(tier):
         for ow in (0, 1):
             for k in scen.KINDS:
+                for d in ('file', 'ldang', 'emptydir'):
+                    out.append({'part': 'at-prompt', 'kind': k, 'ow': ow, 'sort': so, 'dest': d})
+    for so in sorts(tier):
+        for ow in (0, 1):
+            for k in scen.KINDS:
                 for var in ('parent-kept', 'parent-removed'):
                     for reply in ('0,1', '0-1', '1,0'):
                         out.append({'part': 'twice', 'kind': k, 'ow': ow, 'sort': so, 'var': var, 'reply': reply})
@@ -120,7 +125,48 @@ def run_twice(c):
             'detail': dict(detail, at_first=at_first, at_second=at_second)}
 
 
+def run_at_prompt(c):
+    """the destination is created by somebody else AFTER the listing was printed, while trash-restore waits for the reply"""
+    path = W + '/b'
+    Wd = scen.base_world()
+    scen.add_entry(Wd, path, c['kind'])
+    with cell.Sandbox(Wd.spec()) as sb:
+        orig = sb.snapshot()
+        r = sb.run(['trash-put', 'b'], now='2024-01-01T10:00:00', cwd=W)
+        before = sb.snapshot()
+        planted = {}
+
+        def plant(s):
+            extra = world.World()
+            extra.nodes, extra.order = {}, []
+            globals()['plant'](extra, path, c['dest'])
+            world.build(s.root, [extra.nodes[p] for p in extra.order if p.startswith(path)])
+            planted['snap'] = s.snapshot()
+        argv = ['trash-restore', '--sort', c['sort']] + (['--overwrite'] if c['ow'] else [])
+        r = sb.run_dialogue(argv, [(plant, '0')], cwd=W)
+        after = sb.snapshot()
+    mid = planted.get('snap')
+    detail = {'argv': argv, 'exit': r.exit, 'err': r.err[-300:], 'out': r.out[-200:]}
+    dims = 'at-prompt|dest=%s|kind=%s|ow=%d' % (c['dest'], c['kind'], c['ow'])
+    if mid is None:
+        return {'verdict': 'dontcare', 'klass': 'at-prompt:no-prompt-reached', 'detail': detail}
+    dest_unchanged = world.under(mid, path) == world.under(after, path)
+    pair_intact = world.under(before, TD) == world.under(after, TD)
+    if not c['ow']:
+        if r.exit != 0 and dest_unchanged and pair_intact:
+            return {'verdict': 'ok', 'klass': 'at-prompt:refused', 'nontrivial': dims, 'detail': detail}
+        what = 'clobbered-destination-created-while-waiting-at-the-prompt' if not dest_unchanged else 'refusal-not-reported'
+        return {'verdict': 'viol', 'sig': 'C06|%s|dest=%s' % (what, c['dest']), 'klass': what, 'nontrivial': dims, 'detail': detail}
+    if c['dest'] == 'emptydir' or c['kind'] == 'tree':
+        return {'verdict': 'dontcare', 'klass': 'at-prompt:overwrite-involving-directory', 'detail': detail}
+    if world.same_entry(orig, path, after, path) and r.exit == 0:
+        return {'verdict': 'ok', 'klass': 'at-prompt:replaced', 'nontrivial': dims, 'detail': detail}
+    return {'verdict': 'viol', 'sig': 'C06|overwrite-did-not-replace|at-prompt|kind=%s' % c['kind'], 'klass': 'at-prompt-overwrite-failed', 'nontrivial': dims, 'detail': detail}
+
+
 def run_case(c):
+    if c.get('part') == 'at-prompt':
+        return run_at_prompt(c)
     if c.get('part') == 'twice':
         return run_twice(c)
     first = c['sel'] in ('single', 'comma-first', 'range-first')
